@@ -237,7 +237,7 @@ func c12Unblock(r *verdict.Run, race bool) {
 	}
 	var all []scn
 	for _, f := range blkForms {
-		for _, where := range []string{"not-blocked", "before-begin", "before-register", "after-register", "before-capture", "waiting", "with-push", "unknown-id", "stale-then-block", "in-empty-wakeup-transaction", "kill-in-empty-wakeup-transaction"} {
+		for _, where := range []string{"not-blocked", "before-begin", "before-register", "after-register", "before-capture", "waiting", "with-push", "unknown-id", "stale-then-block", "in-empty-wakeup-transaction", "kill-in-empty-wakeup-transaction", "in-serving-transaction"} {
 			for _, mode := range []string{"", "TIMEOUT", "ERROR"} {
 				if where == "kill-in-empty-wakeup-transaction" && mode != "" {
 					continue
@@ -302,8 +302,65 @@ func c12Unblock(r *verdict.Run, race bool) {
 			}
 			return w.reply.Null, "a null reply"
 		}
+		// nextBlockIsClean: whatever happened to the request, it is used up: a new block on the same connection waits
+		// (it is not ended by a leftover request) and is served by a push
+		nextBlockIsClean := func() {
+			s.do("DEL", "q", "dst")
+			w.issue(cmd, 10*time.Second)
+			if w.finished(c11Settle) {
+				r.Report("unblock/leftover-request-ends-the-next-block", fmt.Sprintf("%s: the next blocking command on the same connection ended at once with %s although nobody unblocked it", s.name, w.reply), s.rep())
+				return
+			}
+			s.do("RPUSH", "q", "el-9")
+			s.expectServed(w, "el-9", "unblock/target-not-served-afterwards")
+		}
 		r.Eval(1)
 		switch sc.where {
+		case "in-serving-transaction":
+			// the request is accepted while the push that serves the target is already under way: one transaction pushes
+			// (the target is woken but cannot pop before EXEC is over) and then unblocks the target. The target ends once
+			// - served or unblocked, the element conserved - and the request must not linger for its next block.
+			from := c.EventCount()
+			c.Ctl("watch blk:before-wait")
+			w.issue(cmd, 15*time.Second)
+			if _, _, f := c.WaitEvent(from, func(ev host.Event) bool { return ev.Kind == "hit" && ev.Point == "blk:before-wait" && ev.ID == w.id }, 5*time.Second); !f {
+				r.Inconclusive("waiter did not reach blk:before-wait")
+				return
+			}
+			time.Sleep(5 * time.Millisecond)
+			req := []string{"CLIENT", "UNBLOCK", strconv.FormatInt(w.id, 10)}
+			if sc.mode != "" {
+				req = append(req, sc.mode)
+			}
+			s.do("MULTI")
+			s.do("RPUSH", "q", "el-1")
+			for f := 0; f < 200; f++ {
+				s.aux.SendCmd("SET", "filler", strconv.Itoa(f))
+			}
+			for f := 0; f < 200; f++ {
+				s.aux.ReadValue(5 * time.Second)
+			}
+			s.do(req...)
+			ex := s.do("EXEC")
+			if ex.Kind != '*' || len(ex.Elems) != 202 {
+				r.Report("unblock/in-transaction/unexpected-exec-reply", fmt.Sprintf("%s: EXEC replied %s", s.name, ex), s.rep())
+				return
+			}
+			if !w.finished(3 * time.Second) {
+				r.Report("unblock/race-with-push/target-stays-blocked", fmt.Sprintf("%s: after MULTI; RPUSH; CLIENT UNBLOCK (reply %s); EXEC the target is still blocked", s.name, ex.Elems[201]), s.rep())
+				return
+			}
+			got := elements(w.reply)
+			ll, dst := s.do("LLEN", "q"), s.do("LLEN", "dst")
+			kept := ll.Int + dst.Int
+			if sc.form.name != "BLMOVE" && sc.form.name != "BRPOPLPUSH" {
+				kept += int64(len(got))
+			}
+			if kept != 1 {
+				r.Report("unblock/race-with-push/element-lost-or-duplicated", fmt.Sprintf("%s: target reply %s, LLEN q = %s, LLEN dst = %s", s.name, w.reply, ll, dst), s.rep())
+			}
+			r.Distinct(fmt.Sprintf("%s/served=%v/unblock-reply=%d", s.name, len(got) == 1, ex.Elems[201].Int))
+			nextBlockIsClean()
 		case "unknown-id":
 			if v := unblock(987654); v.Kind != ':' || v.Int != 0 {
 				r.Report("unblock/unknown-id-not-0", fmt.Sprintf("%s: CLIENT UNBLOCK of an unknown id replied %s", s.name, v), s.rep())
@@ -459,6 +516,7 @@ func c12Unblock(r *verdict.Run, race bool) {
 					r.Report("unblock/race-with-push/element-lost-or-duplicated", fmt.Sprintf("%s: target reply %s, LLEN q = %s, LLEN dst = %s", s.name, w.reply, ll, dst), s.rep())
 				}
 				r.Distinct(fmt.Sprintf("%s/served=%v/unblock-reply=%d", s.name, len(got) == 1, v.Int))
+				nextBlockIsClean()
 				return
 			}
 			v := unblock(w.id)
